@@ -281,6 +281,18 @@ theorem C19_slots_to_new_total (o : OldSlot)
     | ints l' => exact ⟨_, rfl⟩
     | pairs l' => exact ⟨_, rfl⟩
 
+/-- **a slot survives the plain-dictionary form**: re-creating a `Slot` from what `as_dict()` gives
+    (cores and GPUs as dicts) yields the same cores, GPUs (indices and occupations), storage, memory
+    and node -/
+theorem C19_slot_dict_roundtrip (s : Slot) :
+    slotInit (.dicts s.cores) (.dicts s.gpus) s.lfs s.mem s.nodeIndex s.nodeName = s := by
+  cases s; rfl
+
+/-- bare indices stand for whole cores / GPUs; cores and GPUs are treated separately -/
+theorem C19_slot_init_ints (cs gs : List Nat) (lfs mem ni : Nat) (nn : String) :
+    (slotInit (.ints cs) (.ints gs) lfs mem ni nn).cores = cs.map (fun i => (i, 16))
+    ∧ (slotInit (.ints cs) (.ints gs) lfs mem ni nn).gpus = gs.map (fun i => (i, 16)) := ⟨rfl, rfl⟩
+
 /-- **slots of a list are converted independently**: position `i` of the result is what slot `i`
     converts to on its own - nothing is carried over from one slot to the next -/
 theorem C19_slots_list (os : List OldSlot) (ss : List Slot) (h : toNewList os = some ss) :
